@@ -18,7 +18,7 @@ META = {
                    'current iterate), list = initial state (by identity) + one state per step, normalisation, inputs unchanged. krylov: Lanczos coefficients '
                    'alpha_j == <w_j, v_j>, beta_j == ||w_j|| placed tridiagonally, argument of the small exponential == -i h T, result == sum_j (exp(-ihT) e_1)_j v_j.',
     'bounds': {'quick': 'micro-steps: ranks (r1, r2[, r3]) in {1,2}, mode size 2, every position class (first/inner/last) and direction; drivers: chain lengths 2-3, '
-                        'ranks {1,2}, complex Hermitian operators H = C + C^H with C of rank 1, 1-2 steps; krylov: dimension 1-2 (dimension 3 does not finish in the solver)',
+                        'ranks {1,2}, complex Hermitian operators H = C + C^H with C of rank 1, 1-2 steps; krylov: dimension 1-2 (dimension 2 on chain length 2 only; dimension 3, and dimension 2 on chain length 3, end in an undecided look-up of the small exponential and are not claimed)',
                'thorough': 'mode size 3 micro-steps, chain length 4 drivers'},
     'outside': ['exactness at maximal ranks / with a full Krylov space and norm/energy conservation are theorems about the reference scheme decided here '
                 '(the unitary/Hermitian structure of expm is not modelled); not solver-checked', 'truncation inside tdvp2site (threshold > 0)', 'rounding'],
@@ -429,7 +429,7 @@ def drivers(ctx, shape, method, steps, normalize):
 
 
 # ------------------------------------------------------------------------------ krylov
-@scenario('C11', 'krylov', lambda tier: [{'shape': s, 'dim': k, 'cplx': k == 1} for s in DRV_SHAPES[:3] for k in (1, 2) if not (k == 2 and len(s['dims']) > 2 and tier == 'quick')])
+@scenario('C11', 'krylov', lambda tier: [{'shape': s, 'dim': k, 'cplx': k == 1} for s in DRV_SHAPES[:3] for k in (1, 2) if not (k == 2 and len(s['dims']) > 2)])
 def krylov(ctx, shape, dim, cplx):
     """Lanczos coefficients, tridiagonal placement, small exponential, linear combination of the Krylov tensors"""
     TT, ode = ctx.R.TT, ctx.R.ode
